@@ -19,6 +19,9 @@ def harnesses(tier):
             scenario_harness("flat-forever-window-lat", Profile(
                 templates=("F3",), forever="free", window="free", lat="free", perm="id", top="pure",
                 crit_job=False), o, required_notes=req),
+            scenario_harness("flat-forever-verbose", Profile(
+                templates=("F3",), forever="free", perm="two", top="pure", crit_job=False, verbose=True,
+                edges="none"), o, required_notes=req),
             scenario_harness("nested-forever-scheduler", Profile(
                 templates=("N12",), forever="free", forever_sched="free", perm="id", crit_job=False,
                 crit_sched=False), o, required_notes=req),
